@@ -73,9 +73,8 @@ def isoparse : List String → Option String
 def isodt : List String → Option String
   | [y, mo, d, h, mi, s, us, off] => do
     let o ← if off == "naive" then some none else (parseInt off).map some
-    let dt : DateTime := { year := ← parseNat y, month := ← parseNat mo, day := ← parseNat d,
-      hour := ← parseNat h, minute := ← parseNat mi, second := ← parseNat s,
-      micro := ← parseNat us, offset := o }
+    let dt := DateTime.mk (← parseNat y) (← parseNat mo) (← parseNat d) (← parseNat h)
+      (← parseNat mi) (← parseNat s) (← parseNat us) o
     if !(dt.valid && dt.offsetOk) then none else
     some s!"{txt (toIsoDateTime dt)} {dt.instant}"
   | _ => none
